@@ -6,6 +6,7 @@
    because every core breaks ties by position); the property's "no threshold within round-off of a
    metric value" clause only concerns the binary64 evaluation and is handled by the driver. *)
 From Verif Require Import model.Base model.Rung model.ModeCores proofs.RungProofs proofs.ModeCoresProofs.
+From Coq Require Import Sorting.Sorted.
 Open Scope Q_scope.
 
 (* Rung.quantile: mode max on the negated data = minus mode min on the data (q vs 1-q, reversed
@@ -193,6 +194,52 @@ Example c15_example :
 Proof.
   vm_compute. repeat split; try reflexivity; repeat constructor.
 Qed.
+
+(* reporting layer (util.metric_name_mode + Tuner.best_config / print_best_metric_found under per-metric mode
+   lists): for every metric index, every subset of flipped metrics and every table of recorded results, the best
+   trial of the mirrored experiment is the best trial of the original; its value is negated iff that metric flipped *)
+Theorem c15_tuner_best_config_mirror :
+  forall mask modes i table,
+  tuner_best_config (MList (flip_modes mask modes)) i (mirror_table mask table) =
+  option_map (fun b => if nth i mask false then neg_best b else b) (tuner_best_config (MList modes) i table).
+Proof. exact tuner_best_config_mirror. Qed.
+Print Assumptions c15_tuner_best_config_mirror.
+
+Theorem c15_tuner_best_config_mirror_single_mode :
+  forall md i table,
+  tuner_best_config (MStr (flip_mode md)) i (mirror_table (repeat true (S i)) table) =
+  option_map neg_best (tuner_best_config (MStr md) i table).
+Proof. exact tuner_best_config_mirror_str. Qed.
+Print Assumptions c15_tuner_best_config_mirror_single_mode.
+
+(* RUSH candidate selection over multi-fidelity offline evaluations (mean over seeds, BEST fidelity under the mode,
+   rank, first k): the mirrored experiment selects the same configurations in the same order whenever the
+   seed-averaged best-fidelity values are pairwise different; and the selection is by ascending best-fidelity value *)
+Theorem c15_rush_candidates_mirror :
+  forall k evs,
+  distinct_keys (map (fun e => (fst e, tl_reduced Min (snd e))) evs) ->
+  tl_topk Max k (map (fun e => (fst e, neg_evals (snd e))) evs) = tl_topk Min k evs.
+Proof. exact tl_topk_mode_symmetry. Qed.
+Print Assumptions c15_rush_candidates_mirror.
+
+Theorem c15_rush_candidates_by_best_fidelity :
+  forall k evs,
+  tl_topk Min k evs = firstn k (map fst (stable_sort kasc (map (fun e => (fst e, tl_reduced Min (snd e))) evs))) /\
+  StronglySorted (fun a b => snd a <= snd b) (stable_sort kasc (map (fun e => (fst e, tl_reduced Min (snd e))) evs)).
+Proof. exact tl_topk_min_sorted. Qed.
+Print Assumptions c15_rush_candidates_by_best_fidelity.
+
+Example c15_example_reporting_and_candidates :
+  (* two metrics, modes [min; max]; trial 1 is best for metric 0, trial 2 for metric 1 *)
+  (let table := [(1%Z, [[1; 5]; [2; 4]]); (2%Z, [[3; 9]])] in
+   tuner_best_config (MList [Min; Max]) 0 table = Some (1%Z, Some 1) /\
+   tuner_best_config (MList [Min; Max]) 1 table = Some (2%Z, Some 9) /\
+   tuner_best_config (MList [Min; Min]) 1 (mirror_table [false; true] table) = Some (2%Z, Some (- 9))) /\
+  (* crossing curves: configuration 7 starts worst and ends best *)
+  (let evs := [(7%Z, [[5]; [26 # 10]; [1]]); (8%Z, [[3]; [25 # 10]; [2]]); (9%Z, [[35 # 10]; [32 # 10]; [31 # 10]])] in
+   tl_topk Min 2 evs = [7; 8]%Z /\
+   tl_topk Max 2 (map (fun e => (fst e, neg_evals (snd e))) evs) = [7; 8]%Z).
+Proof. vm_compute. repeat split; reflexivity. Qed.
 
 (* non-vacuity for the restore / failure / MOASHA theorems *)
 Example c15_example_restore_failures_moasha :
